@@ -1,10 +1,11 @@
 ------------------------------- MODULE GenRst -------------------------------
 (***************************************************************************)
-(* C19 over time: cminx_gen_rst() is called repeatedly from a build that   *)
-(* lives on - between two calls the sources, the settings file given with  *)
-(* -s, or the output tree may have changed.  The statement is about every  *)
-(* call: afterwards the output tree is what the command line produces for  *)
-(* the sources as they are NOW.                                            *)
+(* Generation over time: cminx_gen_rst() (C19) - or the command line      *)
+(* itself, run again into the same output directory (C13, C12, C01) - is   *)
+(* called repeatedly from a build that lives on.  Between two calls the    *)
+(* sources, the settings file given with -s, or the output tree may have   *)
+(* changed.  The statement is about every call: afterwards the output tree *)
+(* is what CMinx produces for the sources as they are NOW.                 *)
 (*                                                                         *)
 (* Impl: the function builds the argument vector and runs the executable   *)
 (* unconditionally (execute_process).  D_StampSkipsRun models a wrapper    *)
@@ -17,7 +18,9 @@ EXTENDS Integers, Sequences, FiniteSets, TLC, Json
 CONSTANTS Dev, MaxSteps,
           Blind      \* D_StampSkipsRun: the edit kinds the fingerprint does not see
 
-EditKinds == {"lower", "upper", "settings"}    \* a *.cmake source, a *.CMAKE source, the YAML file given with -s
+\* a *.cmake source, a *.CMAKE source, the YAML file given with -s, and a source whose content changes while its
+\* modification time stays older than the generated pages (cp -p, rsync -t, a restored backup, an extracted archive)
+EditKinds == {"lower", "upper", "settings", "backdated"}
 
 VARIABLES ver,     \* [kind -> version] of the inputs as they are now
           out,     \* [gen: a tree was generated, ver: the input versions it was generated from, complete: no page missing]
@@ -47,7 +50,8 @@ Call ==
 EditLower == Edit("lower")
 EditUpper == Edit("upper")
 EditSettings == Edit("settings")
-Next == EditLower \/ EditUpper \/ EditSettings \/ DeletePage \/ Call
+EditBackdated == Edit("backdated")
+Next == EditLower \/ EditUpper \/ EditSettings \/ EditBackdated \/ DeletePage \/ Call
 Spec == Init /\ [][Next]_vars
 
 JustCalled == Len(hist) > 0 /\ hist[Len(hist)] = "call"
